@@ -180,13 +180,19 @@ def maxima():
             if tl >= 1:
                 steps.append({"e": "unsubscribe", "props": [], "topics": [b("u" * tl)]})
                 steps += POLLS
-        # an inbound QoS 1 publish needs a five-byte acknowledgement
-        if mp >= 5:
-            steps.append({"e": "b", "bytes": [0x32, 7, 0, 1, 0x61, 0, 9, 0, 0x78]})
-            steps += POLLS
+        # an inbound QoS 1 publish needs a five-byte acknowledgement: below 5 the connection must be closed
+        steps.append({"e": "b", "bytes": [0x32, 7, 0, 1, 0x61, 0, 9, 0, 0x78]})
+        steps += POLLS
         steps.append({"e": "disconnect", "reason": 0, "props": []})
         progs.append({"cfg": {"rx": 128, "tx": 512, "ka": 0, "sei": 0, "client_id": b("mx%d" % mp), "name": "maxima-%d" % mp},
                       "steps": steps, "connack": [{"id": 0x27, "n": mp, "s": [], "t": []}]})
+        if mp < 5:
+            # the same for a QoS 2 publish (PUBREC) and for a PUBREL (PUBCOMP), each on its own connection
+            for nm, pkt in (("q2", [0x34, 7, 0, 1, 0x61, 0, 9, 0, 0x78]), ("rel", [0x62, 2, 0, 9])):
+                progs.append({"cfg": {"rx": 128, "tx": 512, "ka": 0, "sei": 0, "client_id": b("mx%d%s" % (mp, nm)),
+                                      "name": "maxima-%d-%s" % (mp, nm)},
+                              "steps": [{"e": "b", "bytes": pkt}] + POLLS + [{"e": "publish", "qos": 0, "topic": b("a"), "payload": []}],
+                              "connack": [{"id": 0x27, "n": mp, "s": [], "t": []}]})
     return progs
 
 
